@@ -52,7 +52,13 @@ def _cvc5_check(smt2, timeout_s):
 
 def _work(args):
     """Portfolio, in a fixed order: z3 with a small budget, cvc5, then z3 with the full budget."""
-    idx, smt2, rlimit, timeout_ms, use_cvc5, cvc5_timeout, both = args
+    idx, smt2, rlimit, timeout_ms, use_cvc5, cvc5_timeout, both = args[:7]
+    qf = args[7] if len(args) > 7 else None
+    if qf is not None:
+        # stage 0: the quantifier-free part of the assumptions alone (a subset: `unsat` is conclusive)
+        r0, t0_, _ = _z3_check(qf, 3_000_000, 5_000)
+        if r0 == "unsat":
+            return idx, "unsat", t0_, "z3 (quantifier-free subset)", "", None
     small = min(rlimit, 6_000_000)
     r, t, reason = _z3_check(smt2, small, min(timeout_ms, 10_000))
     backend = "z3"
@@ -92,7 +98,8 @@ def discharge(obligations, tier="quick", workers=None, progress=None):
         if ob.kind == "canary":
             jobs.append((i, smt2, 3_000_000, 2500, False, 0, False))
         else:
-            jobs.append((i, smt2, rlimit, timeout_ms, True, cvc5_timeout, both))
+            qf = ob.smt2(qf_only=True) if ob.has_quantified_assumptions() else None
+            jobs.append((i, smt2, rlimit, timeout_ms, True, cvc5_timeout, both, qf))
     workers = workers or min(16, os.cpu_count() or 4)
     disagreements = []
     if not jobs:
